@@ -489,6 +489,15 @@ fn main() {
                 }
             }
         }
+        Some("gen-iso-roots") => {
+            // verif-pbt gen-iso-roots: roots over Fq of every truncation (top j coefficients) of the four polynomials of
+            // the 11-isogeny, by the model; written to corpus/iso-truncation-roots.json
+            let v = verif_pbt::props::c16::gen_iso_roots();
+            let path = verif_pbt::props::corpus_dir("").join("iso-truncation-roots.json");
+            std::fs::write(&path, serde_json::to_string_pretty(&v).unwrap()).unwrap();
+            println!("{} roots written to {}", v.as_array().map(|a| a.len()).unwrap_or(0), path.display());
+            0
+        }
         Some("find-banded") => {
             // verif-pbt find-banded <g1|g2> <trials-per-thread> [threads]: walk [k]G (crate arithmetic) and print the
             // scalars of SUBGROUP points that have a coordinate in a numerically special band (see recipes::band_of)
